@@ -230,7 +230,7 @@ pub fn explain(type_name: &str, d: &Diff, done: &oracle::Done) -> Option<&'stati
             return Some("end-of-data-array-compared-on-written-prefix");
         }
     }
-    special::explain(type_name, d)
+    special::explain(type_name, d, done)
 }
 
 /// Generic variant tag of a value: enum variant names, version field.
@@ -391,7 +391,8 @@ impl Run<'_> {
                 // what failed, if anything
                 let mut failure: Option<String> = None;
                 if let Some(d) = unexplained {
-                    failure = Some(format!("roundtrip-mismatch:{}:{}:{}", e.name, tag, d.path.trim_start_matches('.')));
+                    let (owner, otag, rel) = self.owner_of(ti, &done.written, d);
+                    failure = Some(format!("roundtrip-mismatch:{}:{}:{}", owner, otag, rel.trim_start_matches('.')));
                 } else if carve_out {
                     // the re-read value legitimately carries trailing data of
                     // its siblings: byte idempotence is not defined for it
@@ -432,6 +433,46 @@ impl Run<'_> {
         }
     }
 
+    /// The innermost registered type that contains the differing location:
+    /// makes signatures independent of the root type the value was embedded
+    /// in. Returns (type name, variant tag, path relative to that node).
+    fn owner_of(&self, root_ti: usize, written: &Value, d: &Diff) -> (String, String, String) {
+        let root = &self.entries[root_ti];
+        let mut best = (root.name.to_string(), variant_tag(root, written), d.path.clone());
+        let mut cur = written;
+        let mut erased = String::new();
+        // never consider the differing node itself
+        let upto = d.cpath.len().saturating_sub(1);
+        for (i, st) in d.cpath.iter().enumerate() {
+            let next = match st {
+                Step::Key(k) => {
+                    erased.push('.');
+                    erased.push_str(k);
+                    cur.get(k.as_str())
+                }
+                Step::Idx(ix) => {
+                    erased.push_str("[]");
+                    cur.get(*ix)
+                }
+            };
+            let Some(n) = next else { break };
+            cur = n;
+            if i >= upto {
+                break;
+            }
+            if let Value::Object(m) = cur {
+                let only_obj = m.len() == 1 && m.contains_key("obj");
+                if !only_obj && !m.is_empty() && node_count(cur) <= 60_000 {
+                    if let Some(e) = self.entries.iter().find(|e| (e.matches)(cur)) {
+                        let rel = d.path.strip_prefix(erased.as_str()).unwrap_or(&d.path).to_string();
+                        best = (e.name.to_string(), variant_tag(e, cur), rel);
+                    }
+                }
+            }
+        }
+        best
+    }
+
     /// A value that violates a declared count/selector precondition passed
     /// validate() and then failed to round-trip: a validation gap.
     fn gap(&mut self, ctx: &mut Ctx, rules_violated: &[&'static str], mut detail: Value, bytes: &[u8]) {
@@ -456,7 +497,7 @@ impl Run<'_> {
             }
             budget -= 1;
             let ps = mutate::path_string(&s.path);
-            let mut put = |this: &mut Self, ctx: &mut Ctx, nv: Value, what: &str| {
+            let put = |this: &mut Self, ctx: &mut Ctx, nv: Value, what: &str| {
                 let mut j = seed.json.clone();
                 if s.path.is_empty() {
                     j = nv;
@@ -543,6 +584,12 @@ impl Run<'_> {
 
 // ---------------------------------------------------------------- run
 
+/// Types checked on seeds only. The IFT patch-map containers are experimental
+/// (cargo feature `ift`), their owned forms are incomplete (GlyphMap carries no
+/// entries, EntryMapRecord is empty) and nearly every field is a
+/// hand-maintained count; mutating them only rediscovers that.
+const NO_MUTATION: &[&str] = &["Ift", "PatchMapFormat1", "PatchMapFormat2"];
+
 fn harvest<'a>(ctx: &mut Ctx, entries: &'a [Entry]) -> Harvest<'a> {
     let mut h = Harvest {
         entries,
@@ -619,12 +666,12 @@ pub fn run(ctx: &mut Ctx, _args: &Args) {
     ctx.extra.insert("registered_types".into(), json!(entries.len()));
     ctx.extra.insert("donor_pool_keys".into(), json!(h.pools.keys()));
 
-    let seed_cap = ctx.tier.pick(36usize, 150);
-    let budget_nodes = ctx.tier.pick(300_000usize, 3_000_000);
-    let max_random = ctx.tier.pick(260usize, 2600);
-    let min_random = ctx.tier.pick(3usize, 12);
-    let sweep_seeds = ctx.tier.pick(2usize, 8);
-    let sweep_sites = ctx.tier.pick(60usize, 240);
+    let seed_cap = ctx.tier.pick(48usize, 150);
+    let budget_nodes = ctx.tier.pick(1_000_000usize, 8_000_000);
+    let max_random = ctx.tier.pick(700usize, 5000);
+    let min_random = ctx.tier.pick(4usize, 16);
+    let sweep_seeds = ctx.tier.pick(3usize, 10);
+    let sweep_sites = ctx.tier.pick(100usize, 300);
 
     let pools = std::mem::take(&mut h.pools);
     let mut run = Run { entries: &entries, stats: vec![Stat::default(); entries.len()] };
@@ -665,6 +712,9 @@ pub fn run(ctx: &mut Ctx, _args: &Args) {
             run.stats[ti].seeds += 1;
             // (a) the seed itself
             run.case(ctx, ti, &seed.json, &seed.origin, if seed.typed { "seed(typed)" } else { "seed(structural)" });
+            if NO_MUTATION.contains(&e.name) {
+                continue;
+            }
             // (b) systematic sweeps
             if sweep_this {
                 run.sweep(ctx, ti, seed, &pools, sweep_sites);
